@@ -229,22 +229,24 @@ def stationary_records(ctx, rng, nid):
         theta0 = rng.uniform(0.5, 2)
         n = rng.choice([6, 12])
         T = rng.uniform(0.05, 0.3) * nu
+        # beta (breeding sex ratio) of the quantifier: fixed schedule so that every run has beta != 1 on both parameter-passing paths
+        beta = [1.0, 0.4, 2.5, 1.0, 3.0, 0.25, 1.0, 0.6][c % 8]
         runs = []
         for pts in ([30, 60, 120] if ctx.quick else [30, 60, 120, 240]):
             xx = Numerics.default_grid(pts)
             try:
-                phi = PhiManip.phi_1D(xx, nu=nu, theta0=theta0, gamma=gamma, h=h)
+                phi = PhiManip.phi_1D(xx, nu=nu, theta0=theta0, gamma=gamma, h=h, beta=beta)
                 before = Spectrum.from_phi(phi, [n], (xx,))
                 if c % 2:       # the same parameters passed as functions of time (on-the-fly kernel)
-                    phi2 = Integration.one_pop(phi, xx, T, nu=lambda t: nu, gamma=lambda t: gamma, h=h, theta0=theta0)
+                    phi2 = Integration.one_pop(phi, xx, T, nu=lambda t: nu, gamma=lambda t: gamma, h=h, theta0=theta0, beta=beta)
                 else:
-                    phi2 = Integration.one_pop(phi, xx, T, nu=nu, gamma=gamma, h=h, theta0=theta0)
+                    phi2 = Integration.one_pop(phi, xx, T, nu=nu, gamma=gamma, h=h, theta0=theta0, beta=beta)
                 after = Spectrum.from_phi(phi2, [n], (xx,))
                 runs.append({'pts': pts, 'before': rats(np.asarray(before.data)), 'after': rats(np.asarray(after.data))})
             except Exception as ex:
                 runs.append({'pts': pts, 'before': [], 'after': [], 'raised': type(ex).__name__})
         recs.append({'id': 'stat-%d' % next(nid), 'op': 'stationary', 'site': 'PhiManip.phi_1D+Integration.one_pop',
-                     'in': {'n': n, 'nu': rat(nu), 'gamma': rat(gamma), 'h': rat(h), 'T': rat(T)}, 'out': {'runs': runs}})
+                     'in': {'n': n, 'nu': rat(nu), 'gamma': rat(gamma), 'h': rat(h), 'T': rat(T), 'beta': rat(beta), 'asfunc': bool(c % 2)}, 'out': {'runs': runs}})
     return recs
 
 
